@@ -9,7 +9,15 @@ package main
 
 import (
 	"fmt"
+	"os"
 	"sync"
+
+	"github.com/ontio/ontology-eventbus/actor"
+	"github.com/polynetwork/poly/account"
+	"github.com/polynetwork/poly/common/log"
+	"github.com/polynetwork/poly/consensus/solo"
+	"github.com/polynetwork/poly/core/ledger"
+	tc "github.com/polynetwork/poly/txnpool/common"
 
 	"github.com/polynetwork/poly/common"
 	"github.com/polynetwork/poly/core/genesis"
@@ -231,7 +239,17 @@ func c03(args []string) {
 	for i := range jobs {
 		distinct[fmt.Sprintf("conc/%s/%s/%d", jobs[i].kind, lab, jobs[i].n)] = true
 	}
-	vio.Emit(obj{"summary": true, "rows": len(rows), "evaluations": evals, "distinct": len(distinct), "concurrent_failures": len(concBad)})
+	// (d) block PRODUCERS: "the transaction root committed in a block header" is first of all written by the proposer.
+	// SoloService.makeBlock (verif export consensus/solo/verif_export.go) is driven with a stub transaction-pool actor
+	// whose pool holds fresh transactions and transactions that were already packed in a recent block (the incremental
+	// validator refuses those): the header's root must be the reference root over the block's OWN transaction list,
+	// and the block must survive its own decoder.
+	producerBlocks := 0
+	if lab == "id" {
+		producerBlocks = c03Producers(rows, maxN, seed, &evals, distinct, violate)
+	}
+	vio.Emit(obj{"summary": true, "rows": len(rows), "evaluations": evals, "distinct": len(distinct), "concurrent_failures": len(concBad),
+		"producer_blocks": producerBlocks})
 }
 
 func labOf(lab string, i int) int {
@@ -242,4 +260,93 @@ func labOf(lab string, i int) int {
 		return 0
 	}
 	return i
+}
+
+func c03Producers(rows []obj, maxN int, seed uint64, evals *int, distinct map[string]bool, violate func(string, int, obj)) int {
+	log.InitLog(log.FatalLog)
+	dir, err := os.MkdirTemp(".", "c03-")
+	vio.Must(err)
+	defer os.RemoveAll(dir)
+	acct := account.NewAccount("")
+	lg, _ := openLedger(dir, acct)
+	defer lg.Close()
+	ledger.DefLedger = lg
+	rootTerm := map[int]interface{}{}
+	for _, r := range rows {
+		row := geto(r, "row")
+		rootTerm[geti(row, "n")] = row["root"]
+	}
+	var mu sync.Mutex
+	var pool []*tc.TXEntry
+	pid := actor.Spawn(actor.FromFunc(func(ctx actor.Context) {
+		if _, ok := ctx.Message().(*tc.GetTxnPoolReq); ok && ctx.Sender() != nil {
+			mu.Lock()
+			p := append([]*tc.TXEntry{}, pool...)
+			mu.Unlock()
+			ctx.Sender().Request(&tc.GetTxnPoolRsp{TxnPool: p}, ctx.Self())
+		}
+	}))
+	defer pid.Stop()
+	rng := vio.NewRNG(seed*313 + 1)
+	nonce := uint32(seed)*9000 + 700000
+	newTx := func() *types.Transaction {
+		nonce++
+		return genesis.NewInvokeTransaction(rng.Bytes(6+rng.Intn(9)), nonce)
+	}
+	blocks := 0
+	for n := 0; n <= maxN; n++ {
+		for _, packed := range []int{0, 1, 3} {
+			if n+packed == 0 && packed != 0 {
+				continue
+			}
+			svc := solo.VerifNewService(acct, pid)
+			var old []*types.Transaction
+			for i := 0; i < packed; i++ {
+				old = append(old, newTx())
+			}
+			if packed > 0 {
+				// the block at the ledger's current height carried these transactions
+				svc.VerifAddPackedBlock(&types.Block{Header: &types.Header{Height: lg.GetCurrentBlockHeight()}, Transactions: old})
+			}
+			var all []*types.Transaction
+			for i := 0; i < n; i++ {
+				all = append(all, newTx())
+			}
+			all = append(all, old...)
+			perm := rng.Perm(len(all))
+			mu.Lock()
+			pool = pool[:0]
+			for _, j := range perm {
+				pool = append(pool, &tc.TXEntry{Tx: all[j]})
+			}
+			mu.Unlock()
+			var blk *types.Block
+			var err error
+			pn := vio.Safe(func() { blk, err = svc.VerifMakeBlock() })
+			*evals++
+			blocks++
+			distinct[fmt.Sprintf("producer/solo/%d/%d", n, packed)] = true
+			if pn != "" || err != nil || blk == nil {
+				violate("producer-makeBlock-failed", n, obj{"panic": pn, "err": fmt.Sprint(err), "packed_before": packed})
+				continue
+			}
+			own := blk.Transactions
+			term, ok := rootTerm[len(own)]
+			if !ok {
+				violate("producer-block-has-unexpected-size", n, obj{"transactions": len(own), "pool": len(all)})
+				continue
+			}
+			env := &termeval.Env{Tx: func(i int) [32]byte { return [32]byte(own[i].Hash()) }}
+			exp := mustHash(env, term)
+			if [32]byte(blk.Header.TransactionsRoot) != exp {
+				violate("producer-header-root-differs-from-reference-over-own-transactions", n, obj{"producer": "solo.makeBlock",
+					"pool": len(all), "already_packed_in_pool": packed, "transactions_in_block": len(own),
+					"expected": vio.Hex(exp[:]), "header": vio.Hex(blk.Header.TransactionsRoot[:])})
+			}
+			if _, derr := types.BlockFromRawBytes(blk.ToArray()); derr != nil {
+				violate("producer-block-refused-by-decoder", n, obj{"producer": "solo.makeBlock", "err": derr.Error(), "already_packed_in_pool": packed})
+			}
+		}
+	}
+	return blocks
 }
